@@ -13,7 +13,38 @@ open Model Gen
 def toInst (s : CtxInst) : Inst :=
   { ll := s.log_likelihood, lp := s.log_prior, defaults := s._checkpoint_defaults, fresh := s.fresh }
 
-/-- programs run on the translated handlers -/
+/-- the handler `enable_pool(pool id, close_pool, parallelize_prior)` builds, in an environment where `faulty id` says whether
+    the pool's `close()` / `join()` raise -/
+def hOf (faulty : Nat → Bool × Bool) (id : Nat) (close par : Bool) : PoolH :=
+  { pool := some id, close_pool := close, parallelize_prior := par,
+    close_raises := (faulty id).1, join_raises := (faulty id).2 }
+
+/-- programs run on the translated handlers; `faulty id` says whether `close()` / `join()` of pool `id` raise.  An exception
+    raised by `__exit__` leaves the `with` statement like one raised by the body. -/
+def execSrcF (faulty : Nat → Bool × Bool) : Prog → CtxInst → Bool × CtxInst × List PoolEv
+  | .act, s => (false, s, [])
+  | .touch, s =>
+    (false, { s with _checkpoint_defaults :=
+      s._checkpoint_defaults.map fun d => { d with savedConfig := true, savedFlow := true } }, [])
+  | .raise, s => (true, s, [])
+  | .obs, s => (false, s, [PoolEv.seen (toInst s)])
+  | .seq a b, s =>
+    let (r, s1, l1) := execSrcF faulty a s
+    if r then (true, s1, l1)
+    else
+      let (r2, s2, l2) := execSrcF faulty b s1
+      (r2, s2, l1 ++ l2)
+  | .pool id close par body, s =>
+    let e := Gen.pool_enter (hOf faulty id close par) s
+    let (r, s2, l) := execSrcF faulty body e.2.1
+    let x := Gen.pool_exit e.1 s2
+    (r || x.2.2, x.1, l ++ x.2.1)
+  | .auto path every sc sf body, s =>
+    let e := Gen.auto_enter path every sc sf s
+    let (r, s2, l) := execSrcF faulty body e.2
+    (r, Gen.auto_finally e.1 s2, l)
+
+/-- programs run on the translated handlers, every pool shutting down cleanly -/
 def execSrc : Prog → CtxInst → Bool × CtxInst × List PoolEv
   | .act, s => (false, s, [])
   | .touch, s =>
@@ -48,6 +79,22 @@ theorem pool_enter_spec (id : Nat) (close par : Bool) (s : CtxInst) :
        some id) := by
   unfold Gen.pool_enter
   cases par <;> rfl
+
+/-- `__exit__` puts the saved callables back BEFORE it shuts the pool down: whatever the pool does (no pool at all, `close()` or
+    `join()` raising), the instance leaves `__exit__` with the callables saved by `__enter__` -/
+theorem pool_exit_restores_always (h : PoolH) (s : CtxInst) :
+    (Gen.pool_exit h s).1.log_likelihood = h.original_log_likelihood ∧
+    (Gen.pool_exit h s).1.log_prior = h.original_log_prior ∧
+    (Gen.pool_exit h s).1._checkpoint_defaults = s._checkpoint_defaults := by
+  unfold Gen.pool_exit
+  cases h.close_pool <;> simp
+
+theorem pool_enter_saves (h : PoolH) (s : CtxInst) :
+    (Gen.pool_enter h s).1.original_log_likelihood = s.log_likelihood ∧
+    (Gen.pool_enter h s).1.original_log_prior = s.log_prior ∧
+    (Gen.pool_enter h s).2.1._checkpoint_defaults = s._checkpoint_defaults := by
+  unfold Gen.pool_enter
+  cases h.pool <;> cases h.parallelize_prior <;> simp
 
 theorem pool_exit_spec (id : Nat) (close par : Bool) (a b : Nat) (s : CtxInst) :
     Gen.pool_exit { pool := some id, close_pool := close, parallelize_prior := par,
@@ -99,6 +146,49 @@ theorem src_callables_restored (p : Prog) (s : CtxInst) :
     simp only [execSrc, auto_enter_spec, auto_finally_spec]
     have := ih { s with _checkpoint_defaults := some { path := path, every := every, saveConfig := sc, saveFlow := sf } }
     exact this
+
+/-- **also when a pool's own shutdown raises** (`close()` or `join()` of any pool, any combination): likelihood and prior are
+    the same objects after any program as before it -/
+theorem src_callables_restored_faulty (faulty : Nat → Bool × Bool) (p : Prog) (s : CtxInst) :
+    (execSrcF faulty p s).2.1.log_likelihood = s.log_likelihood ∧ (execSrcF faulty p s).2.1.log_prior = s.log_prior := by
+  induction p generalizing s with
+  | act => simp [execSrcF]
+  | touch => simp [execSrcF]
+  | raise => simp [execSrcF]
+  | obs => simp [execSrcF]
+  | seq a b iha ihb =>
+    simp only [execSrcF]
+    rcases h : execSrcF faulty a s with ⟨r, s1, l1⟩
+    have ha := iha s; rw [h] at ha
+    cases r with
+    | true => simpa using ha
+    | false =>
+      rcases h2 : execSrcF faulty b s1 with ⟨r2, s2, l2⟩
+      have hb := ihb s1; rw [h2] at hb
+      simp only [Bool.false_eq_true, ↓reduceIte]
+      exact ⟨hb.1.trans ha.1, hb.2.trans ha.2⟩
+  | pool id close par body _ =>
+    simp only [execSrcF]
+    have hx := pool_exit_restores_always (Gen.pool_enter (hOf faulty id close par) s).1
+      (execSrcF faulty body (Gen.pool_enter (hOf faulty id close par) s).2.1).2.1
+    have he := pool_enter_saves (hOf faulty id close par) s
+    exact ⟨hx.1.trans he.1, hx.2.1.trans he.2.1⟩
+  | auto path every sc sf body ih =>
+    simp only [execSrcF, auto_enter_spec, auto_finally_spec]
+    exact ih _
+
+/-- a failing shutdown makes the `with` statement raise, and the second of close/join is not attempted after the first failed -/
+theorem src_faulty_shutdown_raises (id : Nat) (par : Bool) (body : Prog) (s : CtxInst) (faulty : Nat → Bool × Bool)
+    (hf : (faulty id).1 = true ∨ (faulty id).2 = true) :
+    (execSrcF faulty (.pool id true par body) s).1 = true := by
+  simp only [execSrcF]
+  have : (Gen.pool_exit (Gen.pool_enter (hOf faulty id true par) s).1
+      (execSrcF faulty body (Gen.pool_enter (hOf faulty id true par) s).2.1).2.1).2.2 = true := by
+    unfold Gen.pool_exit Gen.pool_enter hOf
+    rcases hf with h | h
+    · cases par <;> simp [h]
+    · cases (faulty id).1 <;> cases par <;> simp [h]
+  simp [this]
 
 /-- leaving the automatic-checkpoint context restores the checkpoint defaults to exactly what they were on entry (their
     absence included), for every body, normally or through an exception -/
